@@ -180,23 +180,7 @@ func (e *Enc) builtin(in *ssa.Call, b *ssa.Builtin, st *State) {
 			e.set(in, e.freshVal("cap", in.Type()))
 		}
 	case "append":
-		x, y := e.val(args[0]), e.val(args[1])
-		r := e.freshVal("append", in.Type())
-		addLen := ""
-		if isString(args[1].Type()) {
-			addLen = app("slen", y.c[0])
-		} else {
-			addLen = y.c[2]
-		}
-		e.assume(eq(r.c[2], app("+", x.c[2], addLen)))
-		e.assume(not(eq(r.c[0], "null")))
-		// contents: prototype keeps them unconstrained and havocs element cells of that type
-		if sl, ok := in.Type().Underlying().(*types.Slice); ok {
-			names := map[string]bool{}
-			namesOfType(sl.Elem(), names)
-			e.applyEffect(st, &effect{names: names})
-		}
-		e.set(in, r)
+		e.appendOp(in, args, st)
 	case "copy":
 		if sl, ok := args[0].Type().Underlying().(*types.Slice); ok {
 			names := map[string]bool{}
@@ -898,4 +882,129 @@ func (e *Enc) tryFormula(env *Env, x Expr) (f string, ok bool) {
 		}
 	}()
 	return env.formula(x), true
+}
+
+// appendOp: Go's append. The result reuses the argument's backing array when its capacity suffices and is a freshly
+// allocated array otherwise; existing elements keep their values, the appended ones follow, every other cell of the
+// heap is unchanged.
+func (e *Enc) appendOp(in *ssa.Call, args []ssa.Value, st *State) {
+	x, y := e.val(args[0]), e.val(args[1])
+	sl, ok := in.Type().Underlying().(*types.Slice)
+	if !ok {
+		e.set(in, e.freshVal("append", in.Type()))
+		return
+	}
+	fromString := isString(args[1].Type())
+	n := ""
+	if fromString {
+		n = app("slen", y.c[0])
+	} else {
+		n = y.c[2]
+	}
+	nb := e.allocRef(st)
+	newLen := app("+", x.c[2], n)
+	inplace := e.fresh("append.inplace", "Bool")
+	e.assume(eq(inplace, and(not(eq(x.c[0], "null")), app("<=", newLen, x.c[3]))))
+	rb := e.fresh("append.base", "Ref")
+	ro := e.fresh("append.off", "Int")
+	rc := e.fresh("append.cap", "Int")
+	e.assume(eq(rb, ite(inplace, x.c[0], nb)))
+	e.assume(eq(ro, ite(inplace, x.c[1], "0")))
+	e.assume(and(app(">=", rc, newLen), app("<=", rc, "72057594037927936"), imp(inplace, eq(rc, x.c[3]))))
+	elemT := sl.Elem()
+	type lf struct{ name, sort string }
+	var arrs []lf
+	if s, isS := isStruct(elemT); isS {
+		key := structKey(elemT)
+		var walk func(s *types.Struct, key string)
+		walk = func(s *types.Struct, key string) {
+			for i := 0; i < s.NumFields(); i++ {
+				f := s.Field(i)
+				if fs, ok := isStruct(f.Type()); ok {
+					_ = fs
+					e.unsupported("append: nested struct field %s.%s of slice elements is not tracked", key, f.Name())
+					continue
+				}
+				for _, l := range leaves(f.Type()) {
+					arrs = append(arrs, lf{"F|" + key + "|" + f.Name() + "|" + l.path, l.sort})
+				}
+			}
+		}
+		walk(s, key)
+	} else {
+		for _, l := range leaves(elemT) {
+			arrs = append(arrs, lf{"C|" + typeKey(elemT) + "|" + l.path, l.sort})
+		}
+	}
+	// literal element count (the usual append(s, a, b) shape)?
+	lit := -1
+	if !fromString {
+		if k, err := strconv.Atoi(y.c[2]); err == nil && k >= 0 && k <= 4 {
+			lit = k
+		}
+	}
+	// element values are read before the heap changes
+	var newElems []*Val
+	for k := 0; k < lit; k++ {
+		newElems = append(newElems, e.loadAt(st, app("elem", y.c[0], app("+", y.c[1], num(int64(k)))), elemT))
+	}
+	isStructElem := false
+	if _, ok := isStruct(elemT); ok {
+		isStructElem = true
+	}
+	for ai, a := range arrs {
+		old := e.arr(st, a.name, a.sort)
+		e.n++
+		nw := e.declare(fmt.Sprintf("%s@%d", a.name, e.n), "(Array Ref "+a.sort+")")
+		st.m[a.name] = nw
+		cellRef := func(base, idx string) string {
+			r := app("elem", base, idx)
+			return r
+		}
+		_ = cellRef
+		written := fmt.Sprintf("(and ((_ is elem) r) (= (ebase r) %s) (or (not %s) (and (<= (+ %s %s) (eidx r)) (< (eidx r) (+ %s %s)))))", rb, inplace, ro, x.c[2], ro, newLen)
+		if isStructElem {
+			// struct elements live in the field arrays of their struct type at the element reference itself
+		}
+		e.assume(fmt.Sprintf("(forall ((r Ref)) (! (=> (not %s) (= (select %s r) (select %s r))) :pattern ((select %s r))))", written, nw, old, nw))
+		// prefix preserved
+		e.assume(fmt.Sprintf("(forall ((j Int)) (! (=> (and (<= %s j) (< j (+ %s %s))) (= (select %s (elem %s j)) (select %s (elem %s (+ %s (- j %s)))))) :pattern ((select %s (elem %s j)))))",
+			ro, ro, x.c[2], nw, rb, old, x.c[0], x.c[1], ro, nw, rb))
+		// appended elements
+		switch {
+		case lit >= 0:
+			for k := 0; k < lit; k++ {
+				e.assume(eq(sel(nw, app("elem", rb, app("+", ro, app("+", x.c[2], num(int64(k)))))), leafOf(newElems[k], elemT, ai)))
+			}
+		case fromString:
+			e.assume(fmt.Sprintf("(forall ((j Int)) (! (=> (and (<= (+ %s %s) j) (< j (+ %s %s))) (= (select %s (elem %s j)) (sat %s (- j (+ %s %s))))) :pattern ((select %s (elem %s j)))))",
+				ro, x.c[2], ro, newLen, nw, rb, y.c[0], ro, x.c[2], nw, rb))
+		default:
+			e.assume(fmt.Sprintf("(forall ((j Int)) (! (=> (and (<= (+ %s %s) j) (< j (+ %s %s))) (= (select %s (elem %s j)) (select %s (elem %s (+ %s (- j (+ %s %s))))))) :pattern ((select %s (elem %s j)))))",
+				ro, x.c[2], ro, newLen, nw, rb, old, y.c[0], y.c[1], ro, x.c[2], nw, rb))
+		}
+	}
+	e.set(in, &Val{typ: in.Type(), c: []string{rb, ro, newLen, rc}})
+}
+
+// leafOf: the i-th scalar leaf (in the order appendOp enumerates the element arrays) of an element value.
+func leafOf(v *Val, elemT types.Type, i int) string {
+	if s, ok := isStruct(elemT); ok {
+		idx := 0
+		for fi := 0; fi < s.NumFields(); fi++ {
+			f := s.Field(fi)
+			lo, hi := fieldRange(s, fi)
+			if _, nested := isStruct(f.Type()); nested {
+				continue
+			}
+			for k := lo; k < hi; k++ {
+				if idx == i {
+					return v.c[k]
+				}
+				idx++
+			}
+		}
+		return v.c[0]
+	}
+	return v.c[i]
 }
